@@ -47,13 +47,14 @@ def plan(tier, seed):
     jobs += [{"name": "dflt%02d" % i, "spec": {"kind": "default", "n": 40 if q else 2500, "i": i}} for i in range(8)]
     jobs += [{"name": "unwrap%02d" % i, "spec": {"kind": "unwrap", "n": 80 if q else 5000, "i": i}} for i in range(8)]
     jobs += [{"name": "threads%02d" % i, "spec": {"kind": "threads", "rounds": 3 if q else 40}} for i in range(2 if q else 8)]
+    jobs += [{"name": "reuse%02d" % i, "spec": {"kind": "reuse", "n": 130 if q else 600, "i": i}} for i in range(2 if q else 6)]
     return jobs
 
 
 def mandatory_bins(tier):
     b = ["sel_%d_explicit" % s for s in range(4)] + ["sel_%d_no_encryptors" % s for s in range(4)] + ["sel_%d_only_other_selectors" % s for s in range(4)] + ["sel_%d_default_encryptor_object" % s for s in range(4)]
     b += ["scalar_1", "scalar_2", "scalar_n-2", "scalar_n-1", "scalar_2^k", "scalar_2^k-1", "scalar_random", "key_trailing_zero", "key_all_zero", "model_block_opened_by_real_decryptor",
-          "whole_file_with_ecc_block", "published_keys_pinned", "explicit_recipients_created_before_first_default_use", "encryptors_given_as_one_shot_iterator", "encryptors_given_as_generator", "blocks_packed_by_concurrent_threads"]
+          "whole_file_with_ecc_block", "published_keys_pinned", "explicit_recipients_created_before_first_default_use", "encryptors_given_as_one_shot_iterator", "encryptors_given_as_generator", "blocks_packed_by_concurrent_threads", "one_recipient_key_object_reused_for_many_blocks"]
     b += ["invalid:" + c for c in INVALID_CLASSES]
     return b
 
@@ -175,6 +176,32 @@ def run_wrap(ns, ctx, spec):
                     ctx.violation("recovered_key_does_not_authenticate_the_file:" + e.rule, {}, rp)
         if j == 0:
             ctx.sample({"kind": "wrap", "sel": sel, "recipient_scalar": hex(priv), "session_key": key, "block": blk})
+
+
+def run_reuse(ns, ctx, spec):
+    """ONE recipient key object (loaded from DER, as an application would keep it) used for hundreds of blocks in a row: block
+    number 100, 101, ... must be as good as the first"""
+    B = ns.bec2file
+    rng = ctx.rng
+    priv = rng.randrange(1, ecies.P256_N)
+    sel = spec["i"] % 4
+    pub = ns.crypto.create_public_ecc_key_from_der_fmt(ecies.spki_der(ecies.pub_of(priv))) if spec["i"] % 2 == 0 else GB.private_key_obj(ns, priv).public_key
+    enc = B.EccEncryptor(sel, pub)
+    for j in range(spec["n"]):
+        key = rng.randbytes(16)
+        rp = {"kind": "reuse", "priv": hex(priv), "sel": sel, "key": key.hex(), "use_number": j + 1}
+        ctx.ev()
+        ctx.bin("one_recipient_key_object_reused_for_many_blocks")
+        ctx.distinct("reuse", priv, j, key)
+        try:
+            blk = B.InitEccAuthBlock(sel).pack(key, [enc])
+            ctx.mon("pack")
+        except Exception as e:
+            ctx.violation("pack_raises", {"exc": fmt_exc(e), "use_number": j + 1}, rp)
+            break
+        if not check_block(ctx, blk, sel, priv, key, rp, "recipient_object_use_%s" % ("1..99" if j < 99 else "100+")):
+            break
+    ctx.sample({"kind": "reuse", "uses": spec["n"]})
 
 
 def run_threads(ns, ctx, spec):
@@ -419,6 +446,8 @@ def run_shard(spec, ctx):
         run_default(ns, ctx, spec)
     elif k == "threads":
         run_threads(ns, ctx, spec)
+    elif k == "reuse":
+        run_reuse(ns, ctx, spec)
     else:
         run_unwrap(ns, ctx, spec)
 
@@ -426,7 +455,9 @@ def run_shard(spec, ctx):
 def replay(rec, ctx):
     ns = load()
     k = rec.get("kind")
-    if k == "threads":
+    if k == "reuse":
+        run_reuse(ns, ctx, {"n": 130, "i": 0})
+    elif k == "threads":
         run_threads(ns, ctx, {"rounds": 3})
     elif k == "default":
         run_default(ns, ctx, {"n": 12, "i": 0})
